@@ -34,7 +34,7 @@ type Engine struct {
 	msUnit      *Unit
 	keyInfos    map[string]keyInfo
 	tparams     map[string]types.Type // type parameter names of the function being verified
-	frameSet    map[string]bool        // functions whose frame is checked by their own unit in this run
+	frameSet    map[string]bool       // functions whose frame is checked by their own unit in this run
 }
 
 type implInfo struct {
